@@ -14,7 +14,18 @@ pub fn conn_pid_key(id: usize) -> (i32, i32) {
 
 fn program(c: usize, prog: &str, stay: bool) -> Script {
     let t = |j: usize, k: usize| tag(c, j, k);
-    let mut s = Script::new(&format!("c{}", c)).connect("alice", "db", Some("alicepw"));
+    // "<prog>-params": the client has a session parameter of its own, so that every checkout starts with
+    // the pooler's `SET application_name TO 'app-c<i>'` on the borrowed server
+    let (prog, with_params) = match prog.strip_suffix("-params") {
+        Some(p) => (p, true),
+        None => (prog, false),
+    };
+    let mut s = Script::new(&format!("c{}", c));
+    s = if with_params {
+        s.connect_params("alice", "db", Some("alicepw"), &[("application_name", &format!("app-c{}", c))])
+    } else {
+        s.connect("alice", "db", Some("alicepw"))
+    };
     match prog {
         "txn2" => {
             s = s
@@ -96,43 +107,70 @@ pub fn scenario(mode: &str, pool_size: u32, px: &str, py: &str, key: &str) -> Sc
     }
 }
 
-/// conn held by client `c` at log position `s` (transaction mode: open transaction / copy / batch; session mode: until the client leaves)
+/// conn held by client `c` at log position `s` (transaction mode: open transaction / copy / batch; session mode: until the client leaves).
+/// The hold begins with the parameter sync (`SET <tracked> TO ..`) the pooler runs on the borrowed server
+/// right before the client's first statement: those control queries are attributed to the client whose
+/// statement follows them on that connection.
 fn held_conn(log: &[crate::mockpg::Entry], c: usize, s: usize, session: bool) -> Option<usize> {
-    let mut held: Option<usize> = None;
-    for e in log.iter().take_while(|e| e.seq <= s) {
+    // (conn, owner, from_seq, to_seq)
+    let mut intervals: Vec<(usize, usize, usize, usize)> = Vec::new();
+    let mut open: std::collections::BTreeMap<usize, (usize, usize)> = std::collections::BTreeMap::new(); // conn -> (owner, from)
+    let mut sync_start: std::collections::BTreeMap<usize, usize> = std::collections::BTreeMap::new(); // conn -> seq of the first pending SET
+    let mut close_owner = |open: &mut std::collections::BTreeMap<usize, (usize, usize)>, intervals: &mut Vec<(usize, usize, usize, usize)>, conn: usize, at: usize| {
+        if let Some((o, from)) = open.remove(&conn) {
+            intervals.push((conn, o, from, at));
+        }
+    };
+    for e in log.iter() {
         match &e.rec {
             Rec::BRecv { conn, msg, .. } => {
                 if is_control(msg) {
+                    if !open.contains_key(conn) && msg.text().trim_start().starts_with("SET ") {
+                        sync_start.entry(*conn).or_insert(e.seq);
+                    }
                     continue;
                 }
                 if let Some(t) = msg_tag(msg) {
-                    if t.c == c {
-                        held = Some(*conn);
+                    match open.get(conn) {
+                        Some((o, _)) if *o == t.c => {}
+                        _ => {
+                            close_owner(&mut open, &mut intervals, *conn, e.seq);
+                            let from = sync_start.remove(conn).unwrap_or(e.seq);
+                            open.insert(*conn, (t.c, from));
+                        }
                     }
+                    sync_start.remove(conn);
                 }
             }
             Rec::BSend { conn, bytes } => {
-                if !session && held == Some(*conn) {
-                    let (msgs, _, _) = wire::split_stream(bytes);
-                    if let Some(z) = msgs.iter().rev().find(|m| m.code == b'Z') {
-                        if z.body.first() == Some(&b'I') {
-                            held = None;
+                if !session {
+                    if let Some((_, _)) = open.get(conn) {
+                        let (msgs, _, _) = wire::split_stream(bytes);
+                        if let Some(z) = msgs.iter().rev().find(|m| m.code == b'Z') {
+                            if z.body.first() == Some(&b'I') {
+                                close_owner(&mut open, &mut intervals, *conn, e.seq);
+                            }
                         }
                     }
                 }
             }
             Rec::BClose { conn, .. } => {
-                if held == Some(*conn) {
-                    held = None;
-                }
+                close_owner(&mut open, &mut intervals, *conn, e.seq);
+                sync_start.remove(conn);
             }
-            Rec::CClosed { c: cc, .. } | Rec::CEof { c: cc } if *cc == c => {
-                held = None;
+            Rec::CClosed { c: cc, .. } | Rec::CEof { c: cc } => {
+                let conns: Vec<usize> = open.iter().filter(|(_, (o, _))| o == cc).map(|(k, _)| *k).collect();
+                for k in conns {
+                    close_owner(&mut open, &mut intervals, k, e.seq);
+                }
             }
             _ => {}
         }
     }
-    held
+    for (conn, (o, from)) in open {
+        intervals.push((conn, o, from, usize::MAX));
+    }
+    intervals.iter().find(|(_, o, from, to)| *o == c && *from <= s && s < *to).map(|(conn, _, _, _)| *conn)
 }
 
 pub fn oracle(sc: &Scenario, out: &Outcome) -> Vec<Violation> {
@@ -226,6 +264,14 @@ pub fn build(tier: &str) -> SimCheck {
                         scenarios.push(scenario(mode, pool_size, px, py, key));
                     }
                 }
+            }
+        }
+    }
+    // X has a session parameter of its own: the borrowed server is first sent the pooler's parameter sync
+    for pool_size in [1u32, 2] {
+        for px in ["txn2-params", "auto-params"] {
+            for key in ["x", "y", "stale"] {
+                scenarios.push(scenario("transaction", pool_size, px, "txn2", key));
             }
         }
     }
